@@ -77,6 +77,13 @@ CHECKS = {
         technique="Lean 4 theorems about a scheduling model + forced-schedule differential runs",
         ref="DESIGN.md §5 C15",
     ),
+    "C08": dict(
+        category="proof",
+        text="Model of the HDF5 layout (record = position, radius, [width], [amplitudes] as opaque 64-bit patterns; class marker; 'None' marker for empty collections; time column of tracks; keys time_%06d/track_%06d read back in sorted order). Theorems: a record parses back to the droplet it came from for every class/dimension/mode count/NaN width (parseRow_row); for every list of well-formed droplets, uniform or not, writing fails or the dataset decodes to exactly that list (encode_error_or_faithful, track_error_or_faithful, encoded_class); fixed-width decimal keys are strictly increasing in string order below 10^6 (digitsW_lt, pad6_lex) so a time course that can be written reads back with the same members, times and order (roundtrip_timecourse); beyond 10^6 the order provably breaks (pad6_overflow_witness, finding D13). The real to_file output is dumped with h5py and compared field by field and bit by bit with the model's encoding, the real from_file result with the model's decoding; mixed classes/layouts must raise. This exposed defect D14 (fixed in /repo da8c25b).",
+        note="Trusted: Lean kernel; propext/Classical.choice/Quot.sound; h5py stores and returns float64 patterns unchanged and sorts keys lexicographically (monitored through the dump); times exactly representable in float64; constructor value checks (radius >= 0, on-axis) are a parameter `valid` of the decoder which valid inputs satisfy.",
+        technique="Lean 4 theorems about a hand-written executable model + bit-level differential correspondence on file dumps",
+        ref="DESIGN.md §5 C08",
+    ),
 }
 
 NOT_APPLICABLE = {}
